@@ -97,8 +97,25 @@ def e2e_cases(prop, tier, seed):
                 ops += render_schedule(rng, probe)
         if rng.random() < 0.3:
             ops.insert(rng.randint(0, len(ops)), inl(rng.choice([m for m in MALFORMED if not m.startswith(b"-1 ?")])))
-        cases.append(Case("e2e/%d" % i, header(mods, cfg) + ops + ["eof"], tags={"mods": mods, "e2e": True}))
+        cases.append(Case("e2e/%d" % i, header(mods, cfg) + heal_splits(ops) + ["eof"], tags={"mods": mods, "e2e": True}))
     return cases
+
+
+def heal_splits(ops):
+    """the two parts of a line delivered in two reads stay next to each other: the real program is
+    synchronised by a marker line after each op, which cannot be sent into an unfinished line"""
+    ops = list(ops)
+    i = 0
+    while i < len(ops):
+        f = ops[i].split(" ")
+        if f[0] == "in" and len(f) >= 2 and not unhx(f[1]).endswith(b"\n"):
+            j = i + 1
+            while j < len(ops) and not ops[j].startswith("in "):
+                j += 1
+            if j < len(ops) and j != i + 1:
+                ops.insert(i + 1, ops.pop(j))
+        i += 1
+    return ops
 
 
 def _e2e_projector():
@@ -360,7 +377,10 @@ SVC_NAMES = ["login.srv", "drone.srv", "ipr.srv", "combo.srv"]
 SVC_TYPES = ["login", "login-ipr", "dronecheck", "combined"]
 ADDRS = ["1.2.3.4", "10.0.0.1", "255.255.255.255", "0.0.0.0", "0::1", "2001:db8::1", "0::ffff:1.2.3.4",
          "1:0:0:2:0:3:0:0", "0:1:2:3:4:5:6:7", "fe80::1:2:3:4", "junk", "1.2.3", "12345::", "1:2:3:4:5:6:7:8",
-         "0:0:0:0:0:0:102:304", "a:b:c:d:e:f:1:0", "A:B:C:D:E:F:1:0", "FE80::Ab:10", "2001:DB8::100:1000"]
+         "0:0:0:0:0:0:102:304", "a:b:c:d:e:f:1:0", "A:B:C:D:E:F:1:0", "FE80::Ab:10", "2001:DB8::100:1000",
+         # the longest texts an address can have (39 bytes; 45 with an embedded dotted quad on input)
+         "2001:1db8:85a3:1111:2222:8a2e:1370:7334", "ffff:ffff:ffff:ffff:ffff:ffff:ffff:ffff", "1000:1000:1000:1000:1000:1000:1000:1000",
+         "ffff:ffff:ffff:ffff:ffff:ffff:255.255.255.255"]
 FIELD_LENS = [0, 1, 9, 10, 11, 29, 30, 31, 49, 50, 51, 62, 63, 64, 65, 200, 600]
 
 
@@ -413,6 +433,12 @@ def rand_cfg(rng, mods, timeout=None):
         for n in rng.sample(SVC_NAMES, k):
             t = rng.choice(SVC_TYPES + ["Login", "DRONECHECK", "bogus"]) if rng.random() < 0.15 else rng.choice(SVC_TYPES)
             services.append((n, t))
+        if rng.random() < 0.04:
+            # many services, but fewer slots than the clients' 32-bit masks have bits: beyond that
+            # lies the recorded finding F32 (slot 32+k is taken for slot k), replayed from
+            # known_findings.json and kept out of the random families
+            for j in range(rng.choice([8, 16, 22])):
+                services.append(("s%02d.srv" % j, rng.choice(["dronecheck", "dronecheck", "login", "combined"])))
     rules = []
     if mods == "class":
         for n in rng.sample(["a", "B", "c", "Dd", "e", "_g"], rng.choice([0, 1, 2, 3])):
@@ -583,7 +609,15 @@ def render_schedule(rng, scripts, chunks=False):
             ordn[cid] = ordn.get(cid, 0) + 1
             ops.append(inl("%d C %s %s 0::1 6667" % (cid, e[1], e[2])))
         elif e[0] == "line":
-            ops.append(inl("%d %s" % (cid, e[1])))
+            raw = ("%d %s" % (cid, e[1])).encode("latin-1") + b"\n"
+            if len(raw) > 300 and rng.random() < 0.5:
+                # a long line that reaches the daemon in two reads (seeded change C06-7 threw away
+                # 512 pending bytes without a line end and read the tail as a line of its own)
+                cut = len(raw) - rng.choice([1, 2, 6, 40])
+                ops.append("in " + hx(raw[:cut]))
+                ops.append("in " + hx(raw[cut:]))
+            else:
+                ops.append("in " + hx(raw))
         elif e[0] == "timeout":
             ops.append("timeout %d" % cid)
         elif e[0] == "fill":
@@ -1734,7 +1768,13 @@ def canon_record(rec, names=None):
     if f[0] == "out":
         return ("out", tuple(canon_out(f[1] if len(f) > 1 else "=", names)), tuple(f[2:]))
     if f[0] == "rc" and len(f) >= 4:
-        return ("rc", "0" if f[1] == "0" else "nz", tuple(canon_out(f[3], names)))
+        lines = canon_out(f[3], names)
+        if any(l.startswith(b"V :") for l in lines):
+            # start-up: what the logging layer prints before the banner (console verbosity is only
+            # lowered after the modules are set up) is outside every property
+            while not lines[0].startswith(b"V :"):
+                lines.pop(0)
+        return ("rc", "0" if f[1] == "0" else "nz", tuple(lines))
     if f[0] == "exit":
         return ("exit", f[1], f[2], tuple(canon_out(f[4] if len(f) > 4 else "=", names)))
     if f[0] == "fault":
@@ -1762,7 +1802,20 @@ def correspondence_name(prop):
     return "correspondence Proto: iauth_core/xquery/class vs Iauthd.Proto.stepChunk on canonical outputs"
 
 
+def service_names(case):
+    """every service name some configuration of the case mentions (an upper bound of the slots in use)"""
+    names = set()
+    for l in case.lines[1:]:
+        f = l.split(" ")
+        if f[0] in ("conf", "reload"):
+            names.update(x[2:].split(":")[0] for x in f[2:] if x.startswith("s="))
+    return names
+
+
 def classify(prop, f):
+    if len(service_names(f.case)) > 32:
+        # more service names than the per-client masks have bits: one finding whatever the symptom
+        return "proto:%s:more-than-32-service-slots" % prop
     op = f.case.lines[1 + f.idx] if f.idx is not None and 1 + f.idx < len(f.case.lines) else "?"
     kind = op.split(" ")[0]
     if kind == "in":
